@@ -1,5 +1,5 @@
 """C01, C04, C06 (v4 half), C07: DHCPv4 codec family, specification spec/Dhcp4Wire.tla."""
-import json, os
+import json, os, re
 from . import common
 from .common import Infra, log
 from .registry import prop
@@ -128,18 +128,78 @@ def c07(work, tier, seed, replay):
 @prop("C06")
 def c06(work, tier, seed, replay):
     if replay:
-        return replay_file(work, "Trace_Dhcp4", replay)
+        first = open(replay).readline()
+        return replay_file(work, "Trace_Dhcp6" if '"Fix6"' in first else "Trace_Dhcp4", replay)
     vh = common.build_vh(work)
     cfg = "MC_Dhcp4Scan" + ("_thorough" if tier == "thorough" else "")
-    mc = common.require_mc(common.tlc(work, "MC_Dhcp4Scan", cfg=cfg, workers=8), "MC_Dhcp4Scan")
-    tr, stats = common.vh_gen(work, vh, "c06v4", seed, tier)
-    viol, tstates, n = validate(work, "Trace_Dhcp4", tr, stats, procs=8)
-    cov = codec_coverage([mc], stats, tstates, n,
+    mcs = [common.require_mc(common.tlc(work, "MC_Dhcp4Scan", cfg=cfg, workers=8), "MC_Dhcp4Scan"),
+           common.require_mc(common.tlc(work, "MC_Dhcp6", cfg="MC_Dhcp6" + ("_thorough" if tier == "thorough" else ""), workers=8, timeout=2400), "MC_Dhcp6")]
+    tr4, st4 = common.vh_gen(work, vh, "c06v4", seed, tier)
+    tr6, st6 = common.vh_gen(work, vh, "c06v6", seed, tier)
+    v4, ts4, n4 = validate(work, "Trace_Dhcp4", tr4, st4, procs=6)
+    v6, ts6, n6 = validate(work, "Trace_Dhcp6", tr6, st6, procs=6)
+    stats = dict(lines=st4["lines"] + st6["lines"], distinct=st4["distinct"] + st6["distinct"],
+                 distinct_nontrivial=st4["distinct_nontrivial"] + st6["distinct_nontrivial"],
+                 classes={**{"v4:" + k: v for k, v in st4["classes"].items()}, **{"v6:" + k: v for k, v in st6["classes"].items()}},
+                 samples=st4["samples"][:2] + st6["samples"][:2])
+    cov = codec_coverage(mcs, stats, ts4 + ts6, n4 + n6,
                          "DHCPv4: every End-terminated options area over {0,1,2,3,82,255} up to length %d, unsorted/split/padded areas with "
                          "garbage after End, odd hlen, names without NUL, long values split unevenly and interleaved, canonical and mutated "
-                         "packets; each run through FromBytes->ToBytes->FromBytes->ToBytes; non-trivial = accepted by the decoder; distinct "
-                         "by SHA-256 of the input" % (6 if tier == "thorough" else 5), False)
-    return dict(violations=viol, coverage=cov, assumptions=ASSUME_CODEC)
+                         "packets. DHCPv6: every known option code with every payload length 0..44 (three byte patterns incl. out-of-range "
+                         "prefix lengths), canonical and mutated random messages and relay chains, non-canonical accepted messages (duplicate "
+                         "ORO codes, compressed names, /0 prefix with address bits, reserved 4RD bits). Each input goes through "
+                         "FromBytes->ToBytes->FromBytes->ToBytes; non-trivial = accepted by the decoder; distinct by SHA-256 of the input"
+                         % (6 if tier == "thorough" else 5), False)
+    return dict(violations=v4 + v6, coverage=cov, assumptions=ASSUME_CODEC + [
+        "DHCPv6 re-encodings are judged by the specification's decoder (Dec6(b1) = decoded value) because name-bearing options legitimately keep their original (possibly compressed) bytes"])
+
+
+@prop("C02")
+def c02(work, tier, seed, replay):
+    if replay:
+        return replay_file(work, "Trace_Dhcp6", replay)
+    vh = common.build_vh(work)
+    mc = common.require_mc(common.tlc(work, "MC_Dhcp6", cfg="MC_Dhcp6" + ("_thorough" if tier == "thorough" else ""), workers=8, timeout=2400), "MC_Dhcp6")
+    tr, stats = common.vh_gen(work, vh, "c02", seed, tier)
+    st = json.load(open(tr + ".stats"))
+    # every option type the library parses must be known to the specification and present in the corpus
+    import re
+    known = set(int(x) for x in re.search(r"KnownCodes == \{([^}]*)\}", open(os.path.join(common.SPEC, "Dhcp6Wire.tla")).read()).group(1).split(","))
+    lib = set(st["library_typed_codes"])
+    if st["option_types_missing"]:
+        raise Infra("option types missing from the corpus: %s" % st["option_types_missing"])
+    viol, tstates, n = validate(work, "Trace_Dhcp6", tr, stats, procs=6 if tier == "quick" else 12)
+    cov = codec_coverage([mc], stats, tstates, n,
+                         "messages and relay chains (depth 0..8) of 0..20 options drawn from every option type of the library's ParseOption switch "
+                         "(probed at run time) plus unknown codes, nested through IA_NA/IA_TA/IA_PD -> address/prefix -> status code, vendor "
+                         "options, NTP sub-options, relay messages, embedded DHCPv4; fields over their representable domain (whole seconds "
+                         "< 2^32 incl. 0xffffffff, elapsed time in 10 ms units, prefix lengths 0..128 / 0..32, all DUID kinds); non-trivial = "
+                         "carries at least one option; distinct by SHA-256 of the encoding", False)
+    cov["option_type_counts"] = st["option_type_counts"]
+    cov["library_typed_codes"] = sorted(lib)
+    cov["typed_codes_unknown_to_spec"] = sorted(lib - known)
+    return dict(violations=viol, coverage=cov, assumptions=ASSUME_CODEC[:1] + [
+        "harness projection (cmd/vh/v6proj.go) reads typed fields only (exported fields, reflection for unexported option structs), never ToBytes of a typed option",
+        "a library option type unknown to the specification is compared as an opaque payload (reported in typed_codes_unknown_to_spec)"])
+
+
+@prop("C05")
+def c05(work, tier, seed, replay):
+    if replay:
+        return replay_file(work, "Trace_Dhcp6", replay)
+    vh = common.build_vh(work)
+    mc = common.require_mc(common.tlc(work, "MC_Dhcp6", cfg="MC_Dhcp6" + ("_thorough" if tier == "thorough" else ""), workers=8, timeout=2400), "MC_Dhcp6")
+    tr, stats = common.vh_gen(work, vh, "c05", seed, tier)
+    viol, tstates, n = validate(work, "Trace_Dhcp6", tr, stats, procs=8 if tier == "quick" else 12)
+    cov = codec_coverage([mc], stats, tstates, n,
+                         "every TLV area over {0,1,2,3,8,255} up to length %d after a message header and both relay headers (exhaustive), truncated "
+                         "headers, every known option code x every payload length x 5 byte patterns (also through ParseOption), every truncation "
+                         "point, a trailing byte and every top-level length-field perturbation (+-1, 0, 65535, +4) of generated valid messages "
+                         "containing every option type, random/mutated inputs up to 4096 bytes; non-trivial = at least a complete message header; "
+                         "distinct by SHA-256 of the input" % (6 if tier == "thorough" else 5), False)
+    return dict(violations=viol, coverage=cov, assumptions=ASSUME_CODEC[:1] + [
+        "three-way verdict for inputs the RFCs give no meaning to (reserved label length octets, pointers that do not point backwards): reject or natural reading",
+        "documented normalisations on decode: duplicate ORO codes dropped, /0 prefix carries no address, reserved 4RD flag bits"])
 
 
 @prop("C18")
